@@ -55,3 +55,31 @@ PLAN["C16"] = {
     "thorough": [{"test": "TestC16_Codec", "checks": 40000, "shards": 16, "timeout": 1500},
                  {"fuzz": "FuzzParamsJSON", "fuzztime": "60s", "timeout": 600}],
 }
+
+PLAN["C06"] = {
+    "level": "exploration",
+    "rule": ("(Enum, exhaustive) test-engine runs of ReducedModRCheck over all {0,1}^n (n=8,16, n>=bitlen p), of ToReducedBigEndian over all v in [0,p) "
+             "at widths 8/16/24/32 with the correct and a bit-flipped output, and of FromBinaryBigEndian over all bit strings (n=8,16) with correct and "
+             "off-by-one outputs, over the prime fields 3..65537; (Tiny, exhaustive) the compiled tinyfield (p=47) R1CS of ToReducedBigEndian(.,8) with every "
+             "one of the 256 possible prover answers for every value plus non-boolean digits, and of ReducedModRCheck on raw boolean and non-boolean wires; "
+             "(Positions, exhaustive over positions) BN254 n=256 compiled systems: for every bit position 0..255 a pattern agreeing with r above it and differing "
+             "at it (below r when r has a 1 there, above otherwise) with several lower-bit fillings, the modulus itself and v+k*r for all fitting k, both as raw "
+             "wires and as adversarial bit-decomposition answers; (Rapid) sampled widths 24, non-boolean digits, and adversarial strategies (v+k*r, flipped bit, "
+             "non-boolean same-sum digits, bits of another value, zeros, ones) at n=256 and n=32. Oracle: big.Int arithmetic (accept iff all digits boolean and "
+             "the denoted value < p and it fits n bits and the presented output is the big-endian arrangement of the value). Non-trivial = pattern >= p, pattern = p, "
+             "a non-boolean digit, a value needing more than n bits, a wrong presented output, or a first-difference case; enumerated cases are distinct by construction, "
+             "rapid cases are de-duplicated by SHA-1."),
+    "assumptions": A_COMMON,
+    "technique": "exhaustive small-scope enumeration + adversarial-hint property testing against big.Int arithmetic",
+    "level_text": ("Exploration with exhaustive sub-spaces: complete enumeration over 19 small prime fields and byte-aligned widths <= 16 in the test engine, complete "
+                   "enumeration of prover answers on the compiled 47-element-field system, all 256 first-difference positions on the compiled BN254 system; sampled elsewhere."),
+    "level_note": "exhaustiveness holds for the finite sub-spaces named in the rule only; other widths/fields are sampled; gnark's test engine and solver are trusted",
+    "quick": [{"test": "TestC06_Enum", "n": {"PRIMES16": 4, "PRIMESV": 17}, "rapid": False, "timeout": 600},
+              {"test": "TestC06_Tiny", "rapid": False, "timeout": 300},
+              {"test": "TestC06_Positions", "rapid": False, "timeout": 300},
+              {"test": "TestC06_Rapid", "checks": 30000, "timeout": 600}],
+    "thorough": [{"test": "TestC06_Enum", "n": {"PRIMES16": 19, "PRIMESV": 19}, "shards": 16, "rapid": False, "timeout": 1800},
+                 {"test": "TestC06_Tiny", "rapid": False, "timeout": 300},
+                 {"test": "TestC06_Positions", "rapid": False, "timeout": 300},
+                 {"test": "TestC06_Rapid", "checks": 60000, "shards": 8, "timeout": 1800}],
+}
